@@ -1054,11 +1054,50 @@ def gen_intscale(draw, tier="quick"):
         spec["opt"]["nu"] = max(o["nu"], 0.0)
     mode = draw(st.sampled_from(["get", "get", "set_scalar", "set_list"]))
     case = {"spec": spec, "mode": mode, "target": draw(logfloat(1e-2, 1e3))}
+    # a second set of shape parameters, assigned in place after the integral scale was read once
+    opt2 = draw(gens.opt_args(spec["cls"], spec["dim"], mode="accuracy"))
+    if spec["cls"] == "JBessel" and "nu" in opt2:
+        opt2["nu"] = max(opt2["nu"], spec["dim"] / 2 - 1 + 0.52)
+    case["opt2"] = opt2
     if mode == "set_list":
         d = spec["dim"]
         k = draw(st.integers(1, d))
         case["target_list"] = draw(st.lists(logfloat(1e-1, 1e2), min_size=k, max_size=k))
     return case
+
+
+def _reread_after_inplace(m, spec, case, rec, tags):
+    """The reported integral scale is the integral of the *current* correlation: after shape parameters were assigned in
+    place it must be what a freshly built model with the same state reports (nothing remembered from an earlier read)."""
+    opt2 = case.get("opt2") or {}
+    if not opt2 or all(float(getattr(m, k)) == float(v) for k, v in opt2.items()):
+        return
+    with common.quiet():
+        try:
+            float(m.integral_scale)  # a read before the change
+            for k, v in opt2.items():
+                setattr(m, k, v)
+        except ValueError:
+            rec.label("inplace_change_rejected")
+            return
+        s2 = dict(spec, len_scale=float(m.len_scale), opt=dict(spec.get("opt", {}), **{k: float(getattr(m, k)) for k in opt2}))
+        s2.pop("integral_scale", None)
+        if spec["dim"] > 1:
+            s2["anis"] = [float(a) for a in m.anis]
+        try:
+            fresh = build_model(s2)
+        except ValueError:
+            rec.label("inplace_state_not_constructible")
+            return
+        a = float(lib(lambda: m.integral_scale, _what="integral_scale after in-place change", _tags=tags))
+        b = float(fresh.integral_scale)
+    rec.label("reread_after_inplace_change")
+    ok = (a == b) or (math.isnan(a) and math.isnan(b)) or abs(a - b) <= 1e-9 * abs(b)
+    require(
+        ok,
+        f"{spec['cls']} dim={spec['dim']}: after assigning {opt2} in place integral_scale = {a!r}, a freshly built model with the same state reports {b!r}",
+        dict(tags, kind="integral_scale_stale_after_inplace_change"),
+    )
 
 
 def _int_oracle(spec, len_scale):
@@ -1179,6 +1218,7 @@ def check_intscale(case, rec):
             f"len_scale_vec {lsv} != len_scale * [1, anis] {want}",
             dict(tags, fn="len_scale_vec"),
         )
+        _reread_after_inplace(m, spec, case, rec, tags)
         return
     # prescribe the integral scale in the constructor
     s2 = dict(spec)
@@ -1295,6 +1335,7 @@ def check_intscale(case, rec):
         f"built with the resulting len_scale={ls_new!r}: {v3.tolist()}",
         dict(tags, kind="integral_scale_ctor_vs_len_scale"),
     )
+    _reread_after_inplace(m, s3, case, rec, tags)
 
 
 # ---------------------------------------------------------------------------
